@@ -365,6 +365,48 @@ func (h *condRun) observe() (string, any) {
 
 var condSetters = map[string]bool{"cond": true, "setkw": true, "setop": true, "setex": true}
 
+// ptrOp: a user-defined operator held by pointer - its owner may change its text
+type ptrOp struct{ text, ctx string }
+
+func (o *ptrOp) String() string  { return o.text }
+func (o *ptrOp) Context() string { return o.ctx }
+
+var condProbed bool
+
+// liveOperatorProbe: String() renders the operator's text as it is when String()
+// is called (what Operator().String() says), also after the operator's owner
+// changed it; keyword and expression held by pointer-free values stay put.
+func liveOperatorProbe() (problem string) {
+	defer func() {
+		if r := recover(); r != nil {
+			problem = fmt.Sprintf("live-operator probe panicked: %v", r)
+		}
+	}()
+	for _, via := range []string{"Cond", "SetOperator"} {
+		op := &ptrOp{"~=", "custom"}
+		var c stk.Condition
+		if via == "Cond" {
+			c = stk.Cond("person", op, "Jesse")
+		} else {
+			c.Init()
+			c.SetKeyword("person")
+			c.SetOperator(op)
+			c.SetExpression("Jesse")
+		}
+		before := c.String()
+		parent := stk.And().Push(c, "x")
+		pbefore := parent.String()
+		op.text = "=~"
+		if got, want := c.String(), strings.Replace(before, "~=", "=~", 1); got != want || c.Operator().String() != "=~" {
+			return fmt.Sprintf("operator accepted through %s, text then changed by its owner from ~= to =~: String() = %q (Operator().String() = %q), want %q", via, got, c.Operator().String(), want)
+		}
+		if got, want := parent.String(), strings.Replace(pbefore, "~=", "=~", 1); got != want {
+			return fmt.Sprintf("operator accepted through %s, text then changed by its owner: the parent's String() = %q, want %q", via, got, want)
+		}
+	}
+	return ""
+}
+
 func runCond(raw json.RawMessage) (res *Result, err error) {
 	var in CondInput
 	if err = json.Unmarshal(raw, &in); err != nil {
@@ -469,6 +511,10 @@ func runCond(raw json.RawMessage) (res *Result, err error) {
 	sort.Strings(tl)
 	coq := fmt.Sprintf("(MkCase %s %s %s)", coqList(opTs), coqList(obTs), coqBool(panicked))
 	_ = sawReject
+	if !condProbed && h.invariant == "" {
+		condProbed = true
+		h.invariant = liveOperatorProbe()
+	}
 	return &Result{Coq: coq, Observed: recs, Tags: tl, Nontrivial: nset >= 3 && len(kinds) >= 2, Invariant: h.invariant}, nil
 }
 
